@@ -1,6 +1,7 @@
 import BR.Lemmas.LruOrder
 import BR.Bridge.Lru
 import BR.Lemmas.DiskProxy
+import BR.Lemmas.ConcDir
 /-!
 # C17 — max_size_hard_limit refuses overload with a retryable error; reads continue
 
@@ -106,6 +107,22 @@ theorem unknown_size_fetch_hit_was_admitted (C : BR.CasBlob.Codec) (d : BR.Disk.
       | some e => simp at hh
       | none => rw [hsize, hr]
 
+/-- **the backlog the admission test reads is exact under every interleaving** (model M5: uploads,
+reads, the background remover taking one entry at a time, files being corrupted): in every reachable
+state the counter `qsize` equals the summed on-disk sizes of the entries that were removed from the
+index and are not yet unlinked, and each of those entries still has its file on disk — so
+"accounted size + backlog + new item" is what is really occupied plus what is asked for. -/
+theorem conc_backlog_exact (M H : Int) (h0 : 0 ≤ M) (h1 : M < 9223372036854775808) (puts : List (String × List Nat))
+    (gets : List String) (hpos : ∀ p ∈ puts, 0 < p.2.length) (sched : List BR.Conc.Step) :
+    (BR.Conc.run (BR.Conc.initState M H puts gets) sched).lru.qsize =
+        sumQueue (BR.Conc.run (BR.Conc.initState M H puts gets) sched).lru.queue ∧
+    ∀ q ∈ (BR.Conc.run (BR.Conc.initState M H puts gets) sched).lru.queue,
+      ∃ f ∈ (BR.Conc.run (BR.Conc.initState M H puts gets) sched).files, f.key = q.1 ∧ f.rnd = q.2.random := by
+  obtain ⟨hc, hf⟩ := BR.Conc.run_finv M H h0 h1 puts gets hpos sched
+  refine ⟨hc.lru.q_eq, ?_⟩
+  intro q hq
+  exact hf.t_file q (by simp only [tracked, List.mem_append]; exact Or.inr hq)
+
 /-! non-vacuity: a state in which the refusal happens, and the same request admitted after draining -/
 def busy : Lru := run (init 16384 24576) [.add "cas/a" ⟨1, 8192, "r", false⟩, .add "cas/b" ⟨1, 8192, "r", false⟩,
   .add "cas/c" ⟨1, 8192, "r", false⟩]
@@ -115,6 +132,7 @@ example : (reserve busy 8192).2 = some .insufficientHard ∧ (reserve busy 8192)
 
 #print axioms hard_limit_refuses_iff
 #print axioms refusal_state_unchanged
+#print axioms conc_backlog_exact
 #print axioms unknown_size_fetch_refused
 #print axioms unknown_size_fetch_hit_was_admitted
 #print axioms retry_after_drain
